@@ -9,7 +9,7 @@
 //
 // For every value class T in {i64, f64, v128, mixed} and every k in 2..12 one module is built with, for each
 // permutation pi in {swap first two, swap last two, rotate left, reverse, two random} and each loop shape
-// {plain, call inside the loop, call + conditional second permutation, call + uses in the order pi without any assignment}:
+// {plain, call inside the loop, call + conditional second permutation, call + uses in the order pi without any assignment, top-tested loop, top-tested loop with a call} plus shifts with a new value entering (`prev = cur; cur = f(cur)`):
 //
 //	callee(p_0..p_{k-1}: T, n: i32) -> (T x k):   loop { [call nop]; (p_0..p_{k-1}) := (p_pi(0)..p_pi(k-1)); n--; br_if n != 0 }; return p
 //	caller_m(w_0..w_{m-1}: T, n: i32) -> (T x k, T x m) for m in {0,1,4,7,8,9,10,12,16}:
@@ -112,6 +112,35 @@ func storeOf(t byte) []byte {
 	return wb.Cat([]byte{wasm.OpcodeVecPrefix, byte(wasm.OpcodeVecV128Store)}, wb.U32(4), wb.U32(0))
 }
 
+// newOp: a non-constant unary operation producing the "new" value that enters a shift
+func newOp(t byte) []byte {
+	switch t {
+	case wb.I32:
+		return wb.Cat(wb.I32Const(1), []byte{wasm.OpcodeI32Add})
+	case wb.I64:
+		return wb.Cat(wb.I64Const(1), []byte{wasm.OpcodeI64Add})
+	case wb.F32:
+		return []byte{wasm.OpcodeF32Neg}
+	case wb.F64:
+		return []byte{wasm.OpcodeF64Neg}
+	}
+	return []byte{wasm.OpcodeVecPrefix, byte(wasm.OpcodeVecV128Not)}
+}
+
+func newVal(t byte, v val) val {
+	switch t {
+	case wb.I32:
+		return val{uint64(uint32(v[0]) + 1), 0}
+	case wb.I64:
+		return val{v[0] + 1, 0}
+	case wb.F32:
+		return val{uint64(uint32(v[0]) ^ 0x80000000), 0}
+	case wb.F64:
+		return val{v[0] ^ 0x8000000000000000, 0}
+	}
+	return val{^v[0], ^v[1]}
+}
+
 func loadOf(t byte) []byte {
 	switch t {
 	case wb.I32:
@@ -171,6 +200,26 @@ func perms(r *rand.Rand, ts []byte) (names []string, ps [][]int) {
 			p[g[i]] = g[len(g)-1-i]
 		}
 	}))
+	// shifts of loop-carried variables with a NEW non-constant value entering at one end (`prev = cur; cur =
+	// f(cur)`): an entry -(j+1) means "destination := new(p_j)"
+	add("shift-left-new", group(func(g, p []int) {
+		for i := range g {
+			if i+1 < len(g) {
+				p[g[i]] = g[i+1]
+			} else {
+				p[g[i]] = -(g[i] + 1)
+			}
+		}
+	}))
+	add("shift-right-new", group(func(g, p []int) {
+		for i := range g {
+			if i > 0 {
+				p[g[i]] = g[i-1]
+			} else {
+				p[g[i]] = -(g[i] + 1)
+			}
+		}
+	}))
 	for x := 0; x < 2; x++ {
 		add(fmt.Sprintf("random-%d", x), group(func(g, p []int) {
 			sh := r.Perm(len(g))
@@ -198,16 +247,38 @@ func buildModule(ts []byte, ps [][]int, salt uint64) ([]byte, []variant) {
 	nIdx := uint32(k)
 	var vs []variant
 	for pi, p := range ps {
-		for shape := 0; shape < 4; shape++ {
+		for shape := 0; shape < 6; shape++ {
+			hasNew := false
+			for _, x := range p {
+				hasNew = hasNew || x < 0
+			}
+			if hasNew && shape == 3 {
+				continue
+			}
 			var b []byte
-			b = append(b, wasm.OpcodeLoop, 0x40)
-			if shape >= 1 {
+			topTested := shape >= 4
+			if topTested {
+				// block { loop { if n == 0 leave; [call]; assign; n--; continue } }: the exit is tested BEFORE the
+				// assignment, so every variable is live across the back edge
+				b = append(b, wasm.OpcodeBlock, 0x40, wasm.OpcodeLoop, 0x40)
+				b = append(b, wb.LocalGet(nIdx)...)
+				b = append(b, wasm.OpcodeI32Eqz, wasm.OpcodeBrIf, 1)
+			} else {
+				b = append(b, wasm.OpcodeLoop, 0x40)
+			}
+			if shape >= 1 && shape != 4 {
 				b = append(b, wb.Call(nop)...)
 			}
 			assign := func(q []int) []byte {
 				var c []byte
 				for i := 0; i < k; i++ {
-					c = append(c, wb.LocalGet(uint32(q[i]))...)
+					if q[i] < 0 {
+						j := -q[i] - 1
+						c = append(c, wb.LocalGet(uint32(j))...)
+						c = append(c, newOp(ts[j])...)
+					} else {
+						c = append(c, wb.LocalGet(uint32(q[i]))...)
+					}
 				}
 				for i := k - 1; i >= 0; i-- {
 					c = append(c, wb.LocalSet(uint32(i))...)
@@ -237,9 +308,14 @@ func buildModule(ts []byte, ps [][]int, salt uint64) ([]byte, []variant) {
 			b = append(b, wb.LocalGet(nIdx)...)
 			b = append(b, wb.I32Const(1)...)
 			b = append(b, wasm.OpcodeI32Sub)
-			b = append(b, wb.LocalTee(nIdx)...)
-			b = append(b, wasm.OpcodeBrIf, 0)
-			b = append(b, wasm.OpcodeEnd)
+			if topTested {
+				b = append(b, wb.LocalSet(nIdx)...)
+				b = append(b, wasm.OpcodeBr, 0, wasm.OpcodeEnd, wasm.OpcodeEnd)
+			} else {
+				b = append(b, wb.LocalTee(nIdx)...)
+				b = append(b, wasm.OpcodeBrIf, 0)
+				b = append(b, wasm.OpcodeEnd)
+			}
 			for i := 0; i < k; i++ {
 				b = append(b, wb.LocalGet(uint32(i))...)
 			}
@@ -298,12 +374,17 @@ func flatten(ts []byte, vs []val) []uint64 {
 }
 
 // apply: what the callee returns for inputs in, permutation p, shape and n iterations
-func apply(in []val, p []int, shape, n int) []val {
+func apply(ts []byte, in []val, p []int, shape, n int) []val {
 	cur := append([]val{}, in...)
 	step := func() {
 		next := make([]val, len(cur))
 		for i := range cur {
-			next[i] = cur[p[i]]
+			if p[i] < 0 {
+				j := -p[i] - 1
+				next[i] = newVal(ts[j], cur[j])
+			} else {
+				next[i] = cur[p[i]]
+			}
 		}
 		cur = next
 	}
@@ -361,7 +442,7 @@ func main() {
 			}
 			for _, v := range vs {
 				for _, n := range ns {
-					wantCallee := apply(consts, ps[v.perm], v.shape, n)
+					wantCallee := apply(ts, consts, ps[v.perm], v.shape, n)
 					for ci, cname := range v.callers {
 						mm := callerMs[ci]
 						wts := make([]byte, mm)
